@@ -107,6 +107,7 @@ func c03Gen(t *rapid.T, rec *evid.Recorder) c03Case {
 	g := &gen.Syn{R: r, MaxDepth: 1 + r.Intn(6, "depth"), StmtDepth: r.Intn(3, "sdepth"), Tpl: true}
 	fromParser := r.Intn(3, "fromparser") == 0
 	g.Dangling = !fromParser
+	g.RichStr = fromParser // escapes of every family, either quote style (re-quoted and re-encoded by the printer)
 	tree := g.Program(3)
 	if fromParser {
 		opt := layout.Options{Random: true, ASI: true, Comments: true}
